@@ -136,7 +136,7 @@ def run(prop, tier, replay=None):
                          "pairs that must bind. Plus config-vs-annotation on %d router rule sets and %d healthz sequences." % (rstat["cases"], nhealth)),
                    samples=samples or [dict(note="replay")], exhaustive=True,
                    selector_method_pairs=stat["pairs"], bound=stat["bound"], registration_errors=stat["regErrors"],
-                   healthz_sets=stat["hsets"], healthz_checks=stat["hchecks"],
+                   healthz_sets=stat["hsets"], healthz_checks=stat["hchecks"], healthz_ws_watches=stat["hwatches"],
                    config_vs_annotation_lookups=rstat["lookups"], neg_guards_violated=design.get("neg_guards"), known_findings=dict(known))
         C.write_evidence(prop, tier, "model_checking", cov,
                          ["selector semantics of google.api (trailing wildcard covers one or more components) as in spec/Selector.tla",
